@@ -40,6 +40,10 @@
     exit status, subject to the following conditions.  The ERR trap is not executed if the failed
     command is part of … [the same conditions as `-e`]"; "the ERR trap is not inherited by shell
     functions, command substitutions and subshell environments" (no `-E`).
+  * bash tests whether ERR is trapped before it runs a command (`was_error_trap` in
+    execute_cmd.c), so a trap set by the failing command itself (a function that sets it and
+    returns non-zero) does not run for that command; ERR actions run for failures inside an EXIT
+    action (validated against bash 5.2).
   * `EXIT` trap: "executed on exit from the shell"; a subshell starts with traps reset and runs
     the EXIT trap *it* sets when it exits.  `$?` at the start of a trap action is the status before
     the trap; "the exit status of the shell is the status of the last command executed before the
@@ -88,8 +92,10 @@ structure Ctx where
   ign : Bool := false      -- `-e` is being ignored here
   depth : Nat := 0         -- enclosing loops in this function / subshell
   inFunc : Bool := false
-  inTrap : Bool := false   -- running a trap action (trap actions are not re-entered)
+  inTrap : Bool := false   -- running an ERR trap action (not re-entered)
   trapSt : Nat := 0        -- `$?` when the trap action began (what a bare `exit` in it returns)
+  exitTrap : Bool := false -- the trap about to run is the EXIT trap (set by the caller of `.trap`)
+  inExit : Bool := false   -- running an EXIT trap action (ERR traps still run inside it)
 
 abbrev Res := Option (Flow × Env)
 
@@ -188,13 +194,24 @@ def isBrkCont : Cmd → Bool
 
 def status256 (n : Nat) : Nat := n % 256
 
+/-- The context in which a trap action runs: an EXIT action (`exitTrap` set by the caller) or an
+    ERR action.  ERR traps run for failures inside an EXIT action, not inside an ERR action. -/
+def actionCtx (k : Ctx) (status : Nat) : Ctx :=
+  if k.exitTrap then { k with exitTrap := false, inExit := true, trapSt := status, ign := false }
+  else { k with inTrap := true, trapSt := status, ign := false }
+
+/-- The ERR action to run after a failed command: bash decides *before* running a command
+    whether ERR is trapped (`was_error_trap`), and runs the action current afterwards. -/
+def errAction (before after : Env) : Prog :=
+  if before.trapErr.isNil then .nil else after.trapErr
+
 def sem : Nat → Ctx → Task → Env → Res
   | 0, _, _, _ => none
   | n + 1, k, .trap action, e =>
     -- a trap action sees `$?` of before, and leaves `$?` as it was unless it exits the shell
     if action.isNil || k.inTrap then some (.norm, e)
     else
-      match seqList (fun st => sem n { k with inTrap := true, trapSt := e.status, ign := false } (.stmt st)) action e with
+      match seqList (fun st => sem n (actionCtx k e.status) (.stmt st)) action e with
       | none => none
       | some (.exit, e1) => some (.exit, e1)
       | some (_, e1) => some (.norm, { e1 with status := e.status })
@@ -205,7 +222,7 @@ def sem : Nat → Ctx → Task → Env → Res
       if neg then some (.norm, { e1 with status := if e1.status = 0 then 1 else 0 })
       else if isChecked c && e1.status != 0 && !k.ign then
         -- the command failed where `-e` is not ignored: ERR trap, then exit under `-e`
-        match sem n k (.trap e1.trapErr) e1 with
+        match sem n k (.trap (errAction e e1)) e1 with
         | none => none
         | some (.exit, e2) => some (.exit, e2)
         | some (_, e2) => if e2.errexit then some (.exit, e2) else some (.norm, e2)
@@ -215,7 +232,7 @@ def sem : Nat → Ctx → Task → Env → Res
     | some (.brk m, e1) =>
       if neg then some (.brk m, { e1 with status := if e1.status = 0 then 1 else 0 })
       else if isBrkCont c && e1.status != 0 && !k.ign then
-        match sem n k (.trap e1.trapErr) e1 with
+        match sem n k (.trap (errAction e e1)) e1 with
         | none => none
         | some (.exit, e2) => some (.exit, e2)
         | some (_, e2) => if e2.errexit then some (.exit, e2) else some (.brk m, e2)
@@ -223,7 +240,7 @@ def sem : Nat → Ctx → Task → Env → Res
     | some (.cont m, e1) =>
       if neg then some (.cont m, { e1 with status := if e1.status = 0 then 1 else 0 })
       else if isBrkCont c && e1.status != 0 && !k.ign then
-        match sem n k (.trap e1.trapErr) e1 with
+        match sem n k (.trap (errAction e e1)) e1 with
         | none => none
         | some (.exit, e2) => some (.exit, e2)
         | some (_, e2) => if e2.errexit then some (.exit, e2) else some (.cont m, e2)
@@ -249,7 +266,7 @@ def sem : Nat → Ctx → Task → Env → Res
   | n + 1, k, .cmd c, e =>
     let list (k' : Ctx) (p : Prog) (e' : Env) : Res := seqList (fun st => sem n k' (.stmt st)) p e'
     let sub (k' : Ctx) (p : Prog) (e' : Env) : Res :=
-      subRun (fun st => sem n k' (.stmt st)) (fun a e'' => sem n k' (.trap a) e'') p e'
+      subRun (fun st => sem n k' (.stmt st)) (fun a e'' => sem n { k' with exitTrap := true } (.trap a) e'') p e'
     match c with
     | .tru => some (.norm, { e with status := 0 })
     | .fls => some (.norm, { e with status := 1 })
@@ -263,7 +280,7 @@ def sem : Nat → Ctx → Task → Env → Res
       match sub { k with depth := 0 } p (subEnv e []) with
       | none => none
       | some (_, e1) => some (.norm, { e with status := e1.status, vars := (x, stripNl e1.out) :: e.vars })
-    | .exit none => some (.exit, if k.inTrap then { e with status := k.trapSt } else e)
+    | .exit none => some (.exit, if k.inTrap || k.inExit then { e with status := k.trapSt } else e)
     | .exit (some m) => some (.exit, { e with status := status256 m })
     | .ret m =>
       if k.inFunc then
@@ -343,7 +360,7 @@ def sem : Nat → Ctx → Task → Env → Res
 /-- A whole script: run it, then the EXIT trap; the script's status is that of the last command,
     unless the trap action calls `exit`. -/
 def semFile (fuel : Nat) (p : Prog) : Option (Str × Nat) :=
-  match subRun (fun st => sem fuel {} (.stmt st)) (fun a e => sem fuel {} (.trap a) e) p {} with
+  match subRun (fun st => sem fuel {} (.stmt st)) (fun a e => sem fuel { exitTrap := true } (.trap a) e) p {} with
   | none => none
   | some (_, e) => some (e.out, e.status)
 
